@@ -1,6 +1,198 @@
-(* Props/C04.v -- personal names are split into first / von / last / jr parts as BibTeX does. *)
-From Pybtex Require Import Base.Prelude Base.PyChar Base.PyStr Model.BibtexStr Model.Names Proofs.Names.
+(* Props/C04.v -- personal names are split into first / von / last / jr parts as BibTeX does.
+   Only statements, each closed by `exact <lemma>`, its assumptions printed, and Examples showing
+   the hypotheses are met by non-trivial values.
+   person_of_string s = Person(s); person_init = Person(s, first, middle, prelast, last, lineage);
+   split_tex_comma / split_tex_space = split_tex_string(x, ',') / split_tex_string(x)   (Model/BibtexStr.v);
+   is_von_name = the local function of Person._parse_string;  jr_part, first_part, token_case,
+   spec_is_von: Spec/Names.v. *)
+From Pybtex Require Import Base.Prelude Base.PyChar Base.PyStr Model.BibtexStr Model.Names Spec.Names
+  Proofs.NamesSplit Proofs.Names Proofs.NamesCase Proofs.NamesAtomic Proofs.NamesOk Proofs.NamesUnique Proofs.NamesLevel0 Proofs.NamesTok.
 
-Theorem empty_name : person_of_string [] = Ok (empty_person, false).
-Proof. exact person_of_empty. Qed.
-Print Assumptions empty_name.
+(* parsing never raises a foreign exception and never diverges, for EVERY string and every
+   explicit part argument (the only error left is BibTeXError 'too many nested braces') *)
+Theorem parse_name_total : forall s first middle prelast last_ lineage,
+  person_init s first middle prelast last_ lineage <> Crash /\
+  person_init s first middle prelast last_ lineage <> OutOfFuel.
+Proof. exact parse_name_total_pf. Qed.
+Print Assumptions parse_name_total.
+
+(* parsing SUCCEEDS for every string with at most 100 opening braces (the recursion guard
+   max_level = 100 of BibTeXString cannot fire) ... *)
+Theorem parse_name_ok : forall s, length (filter is_lbrace s) <= 100 ->
+  exists p rep, person_of_string s = Ok (p, rep).
+Proof. exact parse_name_ok_pf. Qed.
+Print Assumptions parse_name_ok.
+
+(* ... and beyond that the guard can fire: Person() raises BibTeXError (a pybtex error), e.g. for
+   "x {{{...101...{ y" -- so "parsing succeeds for every string" holds only up to that depth *)
+Theorem parse_name_guard : exists s line, person_of_string s = PyErr E_BIBTEX line.
+Proof. exact parse_name_guard_pf. Qed.
+Print Assumptions parse_name_guard.
+
+(* no token is lost, duplicated or reordered: with [parts] the comma parts of the stripped string,
+   - no comma:  first ++ middle ++ von ++ last is exactly the token list of the string, jr is empty;
+   - commas:    von ++ last = tokens of part 1, jr = tokens of part 2 (if there are three parts),
+                first ++ middle = tokens of the last part (of parts 3.. re-joined when there are more),
+                and "too many commas" is reported iff there are more than three parts *)
+Theorem tokens_preserved : forall s parts p rep,
+  split_tex_comma (strip s) = Ok parts -> person_of_string s = Ok (p, rep) ->
+  (length parts <= 1 ->
+     exists ts, split_tex_space (strip s) = Ok ts /\
+       ts = p_first p ++ p_middle p ++ p_prelast p ++ p_last p /\ p_lineage p = [] /\ rep = false) /\
+  (2 <= length parts ->
+     exists ta tj tf, split_tex_space (nth 0 parts []) = Ok ta /\ split_tex_space (jr_part parts) = Ok tj /\
+       split_tex_space (first_part parts) = Ok tf /\
+       ta = p_prelast p ++ p_last p /\ tj = p_lineage p /\ tf = p_first p ++ p_middle p /\
+       rep = Nat.ltb 3 (length parts)).
+Proof. exact tokens_preserved_pf. Qed.
+Print Assumptions tokens_preserved.
+
+(* First von Last: no token before the von part is a von token; the von part, if any, starts and
+   ends with a von token; no token of the last name except possibly its final one is a von token
+   (so the von part is the longest run delimited by von tokens that leaves a last name); without
+   a von part the last name is a single token; first is the first token of first ++ middle *)
+Theorem von_is_longest_run : forall s x p rep,
+  split_tex_comma (strip s) = Ok [x] -> person_of_string s = Ok (p, rep) ->
+  Forall (fun t => is_von_name t = Ok false) (p_first p ++ p_middle p) /\
+  Forall (fun t => is_von_name t = Ok false) (removelast (p_last p)) /\
+  (p_prelast p = [] \/
+   (is_von_name (hd [] (p_prelast p)) = Ok true /\ is_von_name (last (p_prelast p) []) = Ok true)) /\
+  (p_prelast p = [] -> length (p_last p) <= 1) /\
+  p_first p = firstn 1 (p_first p ++ p_middle p).
+Proof. exact von_is_longest_run_pf. Qed.
+Print Assumptions von_is_longest_run.
+
+(* ... and that description determines the split: ANY cut  fm ++ von ++ lst  of the token list with
+   these properties is the one Person() computes -- the von part is THE longest run delimited by von
+   tokens that still leaves a last name *)
+Theorem von_split_unique : forall s x p rep ts fm von lst,
+  split_tex_comma (strip s) = Ok [x] -> person_of_string s = Ok (p, rep) -> split_tex_space (strip s) = Ok ts ->
+  ts = fm ++ von ++ lst ->
+  Forall (fun t => is_von_name t = Ok false) fm ->
+  (von = [] \/ ((exists y v', von = y :: v' /\ is_von_name y = Ok true) /\
+               (exists v' y, von = v' ++ [y] /\ is_von_name y = Ok true))) ->
+  Forall (fun t => is_von_name t = Ok false) (removelast lst) ->
+  (ts <> [] -> lst <> []) -> (von = [] -> length lst <= 1) ->
+  fm = p_first p ++ p_middle p /\ von = p_prelast p /\ lst = p_last p.
+Proof. exact von_split_unique_pf. Qed.
+Print Assumptions von_split_unique.
+
+(* von Last, First / von Last, Jr, First: the von part is the prefix of part 1 that ends with its
+   last von token that is not the last token *)
+Theorem von_is_longest_run_comma : forall s parts p rep,
+  split_tex_comma (strip s) = Ok parts -> 2 <= length parts -> person_of_string s = Ok (p, rep) ->
+  Forall (fun t => is_von_name t = Ok false) (removelast (p_last p)) /\
+  (p_prelast p = [] \/ is_von_name (last (p_prelast p) []) = Ok true) /\
+  p_first p = firstn 1 (p_first p ++ p_middle p).
+Proof. exact von_is_longest_run_comma_pf. Qed.
+Print Assumptions von_is_longest_run_comma.
+
+(* a last name is always left: if the von-Last part of the name has a token, last is not empty *)
+Theorem last_nonempty : forall s parts p rep ts,
+  split_tex_comma (strip s) = Ok parts -> person_of_string s = Ok (p, rep) ->
+  split_tex_space (if Nat.leb (length parts) 1 then strip s else nth 0 parts []) = Ok ts ->
+  ts <> [] -> p_last p <> [].
+Proof. exact last_nonempty_pf. Qed.
+Print Assumptions last_nonempty.
+
+(* nothing but separators is dropped, at the level of characters: removing whitespace, ties,
+   commas and backslashes (Spec/Names.v content) from the parts, taken in the order of the name
+   form, gives the same as removing them from the name -- no character lost, duplicated or reordered *)
+Theorem chars_preserved : forall s parts p rep,
+  split_tex_comma (strip s) = Ok parts -> person_of_string s = Ok (p, rep) ->
+  (length parts <= 1 -> content (concat (p_first p ++ p_middle p ++ p_prelast p ++ p_last p)) = content s) /\
+  (2 <= length parts ->
+     content (concat ((p_prelast p ++ p_last p) ++ p_lineage p ++ (p_first p ++ p_middle p))) = content s).
+Proof. exact chars_preserved_pf. Qed.
+Print Assumptions chars_preserved.
+
+(* braced groups are never split: if every opened brace of the string is closed again (Spec/Names.v
+   closed), the same holds of every token and of every comma part split_tex_string produces ... *)
+Theorem braced_groups_atomic : forall s, closed s ->
+  (forall ts, split_tex_space s = Ok ts -> Forall closed ts) /\
+  (forall parts, split_tex_comma s = Ok parts -> Forall closed parts).
+Proof. exact braced_groups_atomic_pf. Qed.
+Print Assumptions braced_groups_atomic.
+
+(* every brace-level-0 whitespace character splits: a token of a closed string contains no whitespace
+   at brace level 0 (Spec/Names.v l0ok) *)
+Theorem level0_whitespace_splits : forall s ts, closed s -> split_tex_space s = Ok ts ->
+  Forall (fun t => closed t /\ l0ok t 0 = true) ts.
+Proof. exact level0_whitespace_splits_pf. Qed.
+Print Assumptions level0_whitespace_splits.
+
+(* split_tex_string(s) IS the tokenizer of the property text (Spec/Names.v spec_tokens: one pass with the
+   brace level; at level 0 a whitespace character, an unescaped tie and the backslash of a control
+   space end the token and are dropped; nothing else splits) for every string whose braces are all closed *)
+Theorem tokenizer_spec : forall s, closed s -> split_tex_space s = Ok (spec_tokens s).
+Proof. exact tokenizer_spec_pf. Qed.
+Print Assumptions tokenizer_spec.
+
+(* hence the name parts are the specification's tokens, form by form *)
+Theorem person_tokens_spec : forall s parts p rep, closed s ->
+  split_tex_comma (strip s) = Ok parts -> person_of_string s = Ok (p, rep) ->
+  (length parts <= 1 -> p_first p ++ p_middle p ++ p_prelast p ++ p_last p = spec_tokens (strip s)) /\
+  (2 <= length parts ->
+     p_prelast p ++ p_last p = spec_tokens (nth 0 parts []) /\ p_lineage p = spec_tokens (jr_part parts) /\
+     p_first p ++ p_middle p = spec_tokens (first_part parts)).
+Proof. exact person_tokens_spec_pf. Qed.
+Print Assumptions person_tokens_spec.
+
+(* ... and of every name part of the parsed person *)
+Theorem person_tokens_closed : forall s p rep, closed s -> person_of_string s = Ok (p, rep) ->
+  Forall closed (p_first p ++ p_middle p ++ p_prelast p ++ p_last p ++ p_lineage p).
+Proof. exact person_tokens_closed_pf. Qed.
+Print Assumptions person_tokens_closed.
+
+(* non-vacuity *)
+Example ex_form0 :
+  split_tex_comma (strip (s2l "Jean de la Fontaine du Bois Joli")) = Ok [s2l "Jean de la Fontaine du Bois Joli"] /\
+  person_of_string (s2l "Jean de la Fontaine du Bois Joli") =
+    Ok (mkPerson [s2l "Jean"] [] [s2l "de"; s2l "la"; s2l "Fontaine"; s2l "du"] [s2l "Bois"; s2l "Joli"] [], false).
+Proof. vm_compute. auto. Qed.
+Example ex_form2 :
+  split_tex_comma (strip (s2l "de la Fontaine, Jr., Jean {\'E}. ")) = Ok [s2l "de la Fontaine"; s2l "Jr."; s2l "Jean {\'E}."] /\
+  person_of_string (s2l "de la Fontaine, Jr., Jean {\'E}. ") =
+    Ok (mkPerson [s2l "Jean"] [s2l "{\'E}."] [s2l "de"; s2l "la"] [s2l "Fontaine"] [s2l "Jr."], false).
+Proof. vm_compute. auto. Qed.
+Example ex_too_many :
+  person_of_string (s2l "a, b, c, d") = Ok (mkPerson [s2l "c"] [s2l "d"] [] [s2l "a"] [s2l "b"], true).
+Proof. vm_compute. auto. Qed.
+Example ex_no_tokens : person_of_string (s2l "~") = Ok (empty_person, false).
+Proof. vm_compute. auto. Qed.
+
+(* each token's case is decided by its first brace-level-0 letter or special character
+   (Spec/Names.v token_case) -- REFUTED for the code as it is: a backslash at brace level 1 that does
+   not open a special character decides "not von" at once (finding FC04a) ... *)
+Theorem token_case_rule_refuted : exists tok, is_von_name tok = Ok false /\ spec_is_von tok = true.
+Proof. exact token_case_rule_refuted_pf. Qed.
+Print Assumptions token_case_rule_refuted.
+
+(* ... and true for every token without such a backslash before the deciding character.
+   Full statement (false, see above):  forall tok b, is_von_name tok = Ok b -> b = spec_is_von tok *)
+Theorem token_case_rule_partial : forall tok b, no_stray_backslash tok 0 = true ->
+  is_von_name tok = Ok b -> b = spec_is_von tok.
+Proof. exact token_case_rule_partial_pf. Qed.
+Print Assumptions token_case_rule_partial.
+
+Example ex_case_special_lower : no_stray_backslash (s2l "{\'e}X") 0 = true /\ is_von_name (s2l "{\'e}X") = Ok true.
+Proof. vm_compute. auto. Qed.
+Example ex_case_special_upper : no_stray_backslash (s2l "{\'E}x") 0 = true /\ is_von_name (s2l "{\'E}x") = Ok false.
+Proof. vm_compute. auto. Qed.
+Example ex_case_braced_then_lower : no_stray_backslash (s2l "{A}b") 0 = true /\ is_von_name (s2l "{A}b") = Ok true.
+Proof. vm_compute. auto. Qed.
+Example ex_case_refuted : no_stray_backslash (s2l "{a\b}c") 0 = false.
+Proof. vm_compute. auto. Qed.
+Example ex_atomic : closed (s2l "{von der} Last, {Jr, {Sr}}, A {B C}") /\
+  person_of_string (s2l "{von der} Last, {Jr, {Sr}}, A {B C}") =
+    Ok (mkPerson [s2l "A"] [s2l "{B C}"] [] [s2l "{von der}"; s2l "Last"] [s2l "{Jr, {Sr}}"], false).
+Proof. vm_compute. auto. Qed.
+Example ex_level0 : closed (s2l "a {b c}d  e") /\ split_tex_space (s2l "a {b c}d  e") = Ok [s2l "a"; s2l "{b c}d"; s2l "e"]
+  /\ l0ok (s2l "{b c}d") 0 = true /\ l0ok (s2l "b c") 0 = false.
+Proof. vm_compute. auto. Qed.
+Example ex_tokenizer : closed (s2l "a~b\ c  {d e}f\~g ~ h") /\
+  spec_tokens (s2l "a~b\ c  {d e}f\~g ~ h") = [s2l "a"; s2l "b"; s2l "c"; s2l "{d e}f\~g"; s2l "h"].
+Proof. vm_compute. auto. Qed.
+(* an unclosed group: the code splits at the inner brace, the specification does not (hypothesis needed) *)
+Example ex_tokenizer_unclosed : split_tex_space (s2l "{a{b c") = Ok [s2l "{a{b"; s2l "c"] /\ spec_tokens (s2l "{a{b c") = [s2l "{a{b c"].
+Proof. vm_compute. auto. Qed.
